@@ -24,11 +24,15 @@ POLICIES = ["wait", "steal", "timeout-steal", "timeout-drop"]
 
 
 def gen_case(rng, i):
-    wna, wnb = f":wa{i}", f":wb{i}"
+    # window names: unrelated / one a proper suffix of the other (either way round); WHERE lists the
+    # blocks in either order
+    wna, wnb = [(f":wa{i}", f":wb{i}"), (f":w{i}", f":bw{i}"), (f":tw{i}", f":w{i}"), (f":w{i}x", f":w{i}")][(i // 3) % 4]
     shared = i % 2 == 0
     pa, pb = (PS, PS) if shared else (PA, PB)
     k = rng.random()
-    if k < 0.4:
+    if k < 0.2:
+        qa, qb = [[V("x"), C(pa), V("y")]], [[V("x"), C(pb), V("y")]]          # two shared variables: both must agree
+    elif k < 0.4:
         qa, qb = [[V("x"), C(pa), V("y")]], [[V("z"), C(pb), V("y")]]          # join on ?y
     elif k < 0.7:
         qa, qb = [[V("x"), C(pa), V("y")]], [[V("u"), C(pb), V("v")]]          # cross product
@@ -52,8 +56,9 @@ def gen_case(rng, i):
         st = rng.choice([":s1", ":s2"])
         pred = (pa if st == ":s1" else pb) if rng.random() < 0.85 else rng.choice([pa, pb, NS + "q"])
         pushes.append({"stream": st, "s": rng.choice(SUBJ), "p": pred, "o": rng.choice(SUBJ), "ts": ts})
-    body = f" WINDOW {wna} {{ " + " ".join(f"{tr(a)} {tr(b)} {tr(c)} ." for a, b, c in qa) + f" }} WINDOW {wnb} {{ " + \
-           " ".join(f"{tr(a)} {tr(b)} {tr(c)} ." for a, b, c in qb) + " } " + " ".join(f"{tr(a)} {tr(b)} {tr(c)} ." for a, b, c in static)
+    blka = f" WINDOW {wna} {{ " + " ".join(f"{tr(a)} {tr(b)} {tr(c)} ." for a, b, c in qa) + " }"
+    blkb = f" WINDOW {wnb} {{ " + " ".join(f"{tr(a)} {tr(b)} {tr(c)} ." for a, b, c in qb) + " }"
+    body = (blka + blkb if (i // 12) % 2 == 0 else blkb + blka) + " " + " ".join(f"{tr(a)} {tr(b)} {tr(c)} ." for a, b, c in static)
     text = (f"REGISTER RSTREAM <http://out/stream> AS SELECT * FROM NAMED WINDOW {wna} ON :s1 [RANGE {wa} STEP {sa}] "
             f"FROM NAMED WINDOW {wnb} ON :s2 [RANGE {wb} STEP {sb}] WHERE {{{body}}}")
     mode = "single" if i % 3 == 0 else "multi"
@@ -64,6 +69,8 @@ def gen_case(rng, i):
 
 
 def sig_for(case, why):
+    if why == "deadlock":
+        return "RSPEngine multi-window|multi-thread|engine threads block each other (run does not terminate)"
     if why == "leak":
         return "RSPEngine multi-window|shared R2R store|a WINDOW block matches items that only another window reported"
     return f"RSPEngine multi-window|{case['mode']}|{case['policy']}|{why}"
@@ -91,7 +98,7 @@ def run(ctx):
     if ctx.replay:
         case = json.load(open(ctx.replay))["case"]["case"]
         vlib.write_ndjson(os.path.join(wd, "cases.ndjson"), [case])
-        vlib.kverif(["rsp", "--cases", os.path.join(wd, "cases.ndjson"), "--out", os.path.join(wd, "replay.ndjson")])
+        vlib.kverif_restartable("rsp", os.path.join(wd, "cases.ndjson"), os.path.join(wd, "replay.ndjson"))
         validate(os.path.join(wd, "replay.ndjson"), verdict, "replay")
         return verdict.finish()
     thorough = ctx.tier == "thorough"
@@ -107,7 +114,7 @@ def run(ctx):
     cases = [gen_case(rng, i) for i in range(n)]
     cp, tp = os.path.join(wd, "cases.ndjson"), os.path.join(wd, "trace.ndjson")
     vlib.write_ndjson(cp, cases)
-    vlib.kverif(["rsp", "--cases", cp, "--out", tp], timeout=3300)
+    vlib.kverif_restartable("rsp", cp, tp)
     runs, failed, res = validate(tp, verdict, "l3")
     emits = sum(1 for ev in runs.values() for e in ev if e["ev"] == "emit")
     log(f"validated {len(runs)} scenarios, {emits} emitted solutions: {len(failed)} scenarios rejected")
